@@ -231,6 +231,10 @@ class Reader:
                 return ('field', b[1] + (e['name'],))
             if b and b[0] == 'this':
                 return ('field', ctx['this'] + (e['name'],))
+            if b and b[0] == 'local':
+                return ('localmember', b[1], (e['name'],))
+            if b and b[0] == 'localmember':
+                return ('localmember', b[1], b[2] + (e['name'],))
             return None
         if k == 'This':
             return ('this',)
@@ -256,6 +260,15 @@ class Reader:
             st.effects.append(('write', lv[1], v))
         elif lv[0] == 'local':
             st.locals[lv[1]] = v
+        elif lv[0] == 'localmember':
+            cur = st.locals.get(lv[1])
+            cur = dict(cur) if isinstance(cur, dict) else {}
+            d = cur
+            for name in lv[2][:-1]:
+                d[name] = dict(d[name]) if isinstance(d.get(name), dict) else {}
+                d = d[name]
+            d[lv[2][-1]] = v
+            st.locals[lv[1]] = cur
 
     # -- statements ----------------------------------------------------
     def ex(self, s, st, ctx):
@@ -465,6 +478,8 @@ class Reader:
             out = []
             for (r, s2) in self.ev(e['r'], st, ctx):
                 lv = self.lvalue(e['l'], s2, ctx)
+                if lv is not None and lv[0] == 'localmember' and op != '=':
+                    lv = None
                 if lv is None or lv[0] == 'this':
                     # element store through an accessor call, e.g. data_[i] = v
                     out += self.store_through(e['l'], r, op, s2, ctx)
